@@ -91,6 +91,7 @@ fn exec_cmd<K: track::KeyT>(a: &Args) -> exec::Stats {
     }
     match kind {
         "raw" => go!(sut::Raw<K>),
+        "rawnc" => go!(sut::RawNc<K>),
         "slru" => go!(sut::Seg<K>),
         "2q" => go!(sut::TwoQ<K>),
         "arc" => go!(sut::Arc<K>),
